@@ -142,7 +142,7 @@ impl Field {
 /// Identifies an expression node: its address inside the (immutable) CFG.
 pub type NodeId = usize;
 
-fn node_id(e: &Expression) -> NodeId {
+pub fn node_id(e: &Expression) -> NodeId {
     e as *const Expression as usize
 }
 
@@ -694,8 +694,9 @@ pub fn degree_claims(cfg: &Cfg) -> Vec<(NodeId, usize, String)> {
 
 /// Finite-difference test of every degree claim along one random line in signal space.
 /// Returns (claims judged, first violation).
-pub fn check_degrees(cfg: &Cfg, f: &Field, choice_seed: u64, line_seed: u64) -> (usize, Option<ClaimViolation>) {
-    let claims = degree_claims(cfg);
+pub fn check_degrees(cfg: &Cfg, f: &Field, choice_seed: u64, line_seed: u64, extra: &[(NodeId, usize, String)]) -> (usize, Option<ClaimViolation>) {
+    let mut claims = degree_claims(cfg);
+    claims.extend(extra.iter().cloned());
     if claims.is_empty() {
         return (0, None);
     }
